@@ -100,10 +100,17 @@ AckDup == /\ Acked # {}
           /\ \E p \in {IF Refunds # {} /\ Pick(1..3) > 1 THEN Pick(Refunds) ELSE Pick(Acked)} : \E k \in {Pick(GoodAckHeights(p))} : \E s \in {Pick(Signers)} :
                 Ack(p.src, p, WrittenCode(p), "none", "none", k, "ok", s)
 
+(* a perfectly relayable message whose proof height is stated in another revision (same block number) *)
+RecvRev0 == /\ Receivable # {} /\ "rev0" \in Proofs
+            /\ \E p \in {Pick(Receivable)} : \E k \in {Pick(GoodRecvHeights(p))} : Recv(p.dst, p, "none", k, "rev0", "relayer")
+AckRev0 ==  /\ Ackable # {} /\ "rev0" \in Proofs
+            /\ \E p \in {Pick(Ackable)} : \E k \in {Pick(GoodAckHeights(p))} : \E s \in {Pick(Signers)} :
+                  Ack(p.src, p, WrittenCode(p), "none", "none", k, "rev0", s)
+
 RetoggleR == \E c \in {Pick(Chains)} : \E d \in {Pick(Chains \ {c})} : Retoggle(c, d)
 
 Useful  == CommitUseful \/ UpdateUseful \/ RecvUseful \/ AckUseful \/ SendR \/ SendBackR \/ SendViaR
-Hostile == SendR \/ CommitR \/ UpdateR \/ RecvGood \/ RecvR \/ RecvDup \/ AckGood \/ AckR \/ RecvForged \/ AckForged \/ AckForgedCode \/ AckDup \/ RetoggleR
+Hostile == SendR \/ CommitR \/ UpdateR \/ RecvGood \/ RecvR \/ RecvDup \/ AckGood \/ AckR \/ RecvForged \/ AckForged \/ AckForgedCode \/ AckDup \/ RetoggleR \/ RecvRev0 \/ AckRev0
 
 MInit == Init /\ hist = << >>
 
